@@ -90,5 +90,7 @@ class PlayerPositionAndLookPacket(Packet, BitFieldEnum):
         else:
             target.pitch = self.pitch
 
-        target.yaw %= 360
-        target.pitch %= 360
+        # A tiny negative angle rounds up to exactly 360.0 under '%',
+        # so reduce a second time to stay within [0, 360).
+        target.yaw = target.yaw % 360 % 360
+        target.pitch = target.pitch % 360 % 360
